@@ -57,6 +57,20 @@ theorem find?_perm_of_unique (p : α → Bool) {l₁ l₂ : List α} (hp : l₁.
     rw [ih₁ hu]
     exact ih₂ (fun a ha b hb => hu a (h₁.mem_iff.2 ha) b (h₁.mem_iff.2 hb))
 
+/-- a function whose image list has no duplicates is injective on the list -/
+theorem inj_of_nodup_map {γ : Type} (f : α → γ) {l : List α} (h : (l.map f).Nodup) {x y : α}
+    (hx : x ∈ l) (hy : y ∈ l) (e : f x = f y) : x = y := by
+  induction l with
+  | nil => simp at hx
+  | cons a l ih =>
+    simp only [List.map_cons, List.nodup_cons, List.mem_map, not_exists, not_and] at h
+    simp only [List.mem_cons] at hx hy
+    rcases hx with rfl | hx <;> rcases hy with rfl | hy
+    · rfl
+    · exact absurd e.symm (h.1 y hy)
+    · exact absurd e (h.1 x hx)
+    · exact ih h.2 hx hy
+
 /-- an entry can be moved to the front -/
 theorem perm_front [DecidableEq α] {a : α} {l : List α} (h : a ∈ l) : (a :: l.erase a).Perm l :=
   (List.perm_cons_erase h).symm
